@@ -462,6 +462,51 @@ theorem infer_bool_roundtrip (e : SEnv) (be : BEnv) (hpy : be.py = e.py) (s : St
     simp only [deOne, hpy, hv]
     decide
 
+open Xs.Conv in
+/-- **infer_decimal_roundtrip.** A value inferred as `Decimal` is read by the decimal converter of the
+converter model (C05) and `format(d, "f")` writes it back as it was spelled (up to surrounding white
+space) — the strict test is no longer an assumption about the outside world. -/
+theorem infer_decimal_roundtrip (e : SEnv) (s : Str) (q : Str)
+    (hq : (some PyT.decimal, q) ∈ explicitTypes) (h : matchType e s = q) :
+    ∃ d, decimalDeserialize e.py s = some d ∧ decimalSerialize d = e.py.strip s := by
+  have ht := infer_sound e s .decimal q hq h
+  simp only [testStrict, Xs.Conv.test, Xs.Conv.deserialize, deserializeFrom, deserializeOne, atomDeserialize] at ht
+  cases hd : decimalDeserialize e.conv.toEnv s with
+  | none => simp [hd] at ht
+  | some d =>
+    simp only [hd, Option.map_some, Bool.not_true, Bool.false_eq_true, if_false, decide_eq_true_eq] at ht
+    exact ⟨d, rfl, ht.symm⟩
+
+open Xs.Conv in
+/-- **infer_float_roundtrip.** A value inferred as `float` is a literal `float()` accepts, and unless it
+is an infinity or NaN the float converter writes it back as it was spelled; the only function taken
+from outside is `repr` of the parsed float. -/
+theorem infer_float_roundtrip (e : SEnv) (s : Str) (q : Str)
+    (hq : (some PyT.float, q) ∈ explicitTypes) (h : matchType e s = q) :
+    ∃ f, floatDeserialize e.conv s = some f ∧ (f.isInf = true ∨ f.isNan = true ∨ floatSerialize f = e.py.strip s) := by
+  have ht := infer_sound e s .float q hq h
+  simp only [testStrict, Xs.Conv.test, Xs.Conv.deserialize, deserializeFrom, deserializeOne, atomDeserialize] at ht
+  cases hd : floatDeserialize e.conv s with
+  | none => simp [hd] at ht
+  | some f =>
+    simp only [hd, Option.map_some, Bool.not_true, Bool.false_eq_true, if_false] at ht
+    refine ⟨f, rfl, ?_⟩
+    by_cases hi : f.isInf = true
+    · exact Or.inl hi
+    · by_cases hn : f.isNan = true
+      · exact Or.inr (Or.inl hn)
+      · simp only [hi, hn, Bool.or_self, Bool.false_eq_true, if_false, decide_eq_true_eq] at ht
+        exact Or.inr (Or.inr ht.symm)
+
+/-- the live table has entries for `Decimal` and `float`, and the decimal test is really computed:
+`12.50` is a strict Decimal (a float would write `12.5`), `1e5` is not -/
+example :
+    let e : SEnv := ⟨{ toEnv := Env.ascii, isAlphaNA := fun _ => false, floatRepr := fun _ => "12.5".toList }⟩
+    (explicitTypes.any (fun p => p.1 = some PyT.decimal) && explicitTypes.any (fun p => p.1 = some PyT.float)) = true ∧
+    testStrict e .decimal "12.50".toList = true ∧ testStrict e .float "12.50".toList = false ∧
+    testStrict e .decimal "1e5".toList = false := by
+  decide
+
 example : (some PyT.int, Tables.explicitTypesDt.head!.2) ∈ explicitTypes := by decide
 
 /-! ### the generated union reads leniently (finding C13-union-member-order) -/
@@ -482,7 +527,7 @@ theorem union_parse_unfaithful : ¬ union_parse_faithful := by
 
 /-- the witness really is inferred as a string next to an int sample -/
 theorem union_witness_types :
-    let e : SEnv := ⟨Env.ascii, fun _ => false, fun _ => false⟩
+    let e : SEnv := ⟨{ toEnv := Env.ascii, isAlphaNA := fun _ => false, floatRepr := fun s => s }⟩
     testStrict e .int "007".toList = false ∧ testStrict e .int "12".toList = true := by
   decide
 
